@@ -8,6 +8,7 @@ def handleCase (mode : String) (id : Nat) (hdr body : List Sexp) : String :=
   match mode with
   | "futures" => Drv.Futures.handle id hdr body
   | "core" => Drv.Core.handle id hdr body
+  | "core20" => Drv.Core.handle20 id hdr body
   | "chain" =>
     -- a chain of n tasks, far deeper than the interpreter's recursion limit: value n, one flush iff the leaf awaits an item
     match hdr, body with
